@@ -440,6 +440,24 @@ def bcrypt_groups(tier, rng, groups, skipped, crypt_ok):
         groups.append(g.done())
     restore_backend(H.bcrypt)
 
+    # the legacy $2$ variant: the key is the password cycled WITHOUT the NUL terminator that $2a$ appends first, so
+    # $2$(pw) == $2a$(pw cycled to >= 72 bytes) with the prefix swapped (only 72 key bytes are read)
+    if _bcrypt:
+        g = TGroup("ref:bcrypt:$2$", "bcrypt", "ident $2$ x password lengths 1..80 (every length) x 2 salts, cost 4: equals the bcrypt package's $2a$ digest of the password cycled to 72 bytes")
+        for n in range(1, 81):
+            for k in range(2):
+                pw = bytes((7 * i + 3 * k + n) % 94 + 33 for i in range(n))
+                salt = bcrypt_salt(rng)
+                cyc = (pw * (72 // n + 1))[:72]
+                want = "$2$" + _bcrypt.hashpw(cyc, f"$2a$04${salt}".encode()).decode()[4:]
+                g.case(("bcrypt$2$", n, k))
+                w = {"hasher": "bcrypt", "ident": "$2$", "secret": {"bytes_hex": pw.hex()}, "salt": salt, "length": n}
+                o = outcome(lambda: H.bcrypt.using(salt=salt, rounds=4, ident="2").hash(pw))
+                g.check(o == ("ok", want), "hash:bcrypt:$2$", "$2$ hash differs from the cycled-key definition", dict(w, got=list(o), want=want))
+                o = outcome(H.bcrypt.verify, pw, want)
+                g.check(o == ("ok", True), "verify:bcrypt:$2$", "a correct $2$ string does not verify", dict(w, string=want, outcome=list(o)))
+        groups.append(g.done())
+
     # bcrypt_sha256 (passlib's own published construction, docs/lib/passlib.hash.bcrypt_sha256.rst)
     cases = []
     for n in LENGTHS + ([] if tier == "quick" else [4096]):
